@@ -106,7 +106,7 @@ struct PoolExec {
     mp.refs--;
     ma[a].pool = -1;
   }
-  void destroy(int a) { if (obj[a]) { delete obj[a]; obj[a] = nullptr; drop_ref(a); } }
+  void destroy(int a) { if (obj[a]) { delete obj[a]; obj[a] = nullptr; if (ma[a].pool >= 0) drop_ref(a); } }
 
   // model of Malloc; returns whether a new chunk is needed
   bool need_chunk(MPool& mp, size_t asz) { return mp.chunks[0].size + asz > mp.chunks[0].cap; }
@@ -173,17 +173,19 @@ struct PoolExec {
     if (k == "Destroy") { if (!obj[a]) return false; destroy(a); ob = "del"; return true; }
     int b = (int)((uint64_t)op.A(1) % NA);
     if (k == "CopyCtor" || k == "CopyAssign" || k == "MoveCtor" || k == "MoveAssign") {
-      if (!obj[b] || a == b) return false;
+      // a moved-from handle (ma[x].pool == -1 with obj[x] alive) may only be destroyed or assigned to (revived)
+      if (!obj[b] || a == b || ma[b].pool < 0) return false;
       int pi = ma[b].pool;
+      auto moved_from = [&](int x) { if (((uint64_t)op.A(2) & 1) == 0) { delete obj[x]; obj[x] = nullptr; } else probe("moved_from_handle_kept"); ma[x].pool = -1; };
       if (k == "CopyCtor") { destroy(a); obj[a] = new PoolT(*obj[b]); ma[a] = ma[b]; pools[(size_t)pi].refs++; }
-      else if (k == "CopyAssign") { if (!obj[a]) return false; *obj[a] = *obj[b]; drop_ref(a); ma[a] = ma[b]; pools[(size_t)pi].refs++; }
-      else if (k == "MoveCtor") { destroy(a); obj[a] = new PoolT(std::move(*obj[b])); ma[a] = ma[b]; delete obj[b]; obj[b] = nullptr; ma[b].pool = -1; }
-      else { if (!obj[a]) return false; *obj[a] = std::move(*obj[b]); drop_ref(a); ma[a] = ma[b]; delete obj[b]; obj[b] = nullptr; ma[b].pool = -1; }
+      else if (k == "CopyAssign") { if (!obj[a]) return false; if (ma[a].pool < 0) probe("assign_into_moved_from_handle"); *obj[a] = *obj[b]; if (ma[a].pool >= 0) drop_ref(a); ma[a] = ma[b]; pools[(size_t)pi].refs++; }
+      else if (k == "MoveCtor") { destroy(a); obj[a] = new PoolT(std::move(*obj[b])); ma[a] = ma[b]; moved_from(b); }
+      else { if (!obj[a]) return false; if (ma[a].pool < 0) probe("assign_into_moved_from_handle"); *obj[a] = std::move(*obj[b]); if (ma[a].pool >= 0) drop_ref(a); ma[a] = ma[b]; moved_from(b); }
       if (k[0] == 'C' && !(*obj[a] == *obj[b])) violate("model", site("equal"), "a copy does not compare equal to its source");
       ob = "cp"; check_counters(a); probe("copy_or_move");
       return true;
     }
-    if (!obj[a]) return false;
+    if (!obj[a] || ma[a].pool < 0) return false;
     MPool& mp = pools[(size_t)ma[a].pool];
     if (k == "Malloc") {
       size_t n = (size_t)op.A(1);
@@ -390,8 +392,8 @@ static void gen_c16(uint64_t seed, uint64_t run, const std::string& tier, Plan& 
     else if (m < 34) { Op& o = add("New"); o.a = {(int64_t)r.below(NA), r.chance(2, 3) ? capsel : (int64_t)r.below(8), (int64_t)r.below(4), (int64_t)r.below(1000)}; }
     else if (m < 36) { Op& o = add("CopyCtor"); o.a = {(int64_t)r.below(NA), (int64_t)r.below(NA)}; }
     else if (m < 37) { Op& o = add("CopyAssign"); o.a = {(int64_t)r.below(NA), (int64_t)r.below(NA)}; }
-    else if (m < 38) { Op& o = add("MoveCtor"); o.a = {(int64_t)r.below(NA), (int64_t)r.below(NA)}; }
-    else if (m < 39) { Op& o = add("MoveAssign"); o.a = {(int64_t)r.below(NA), (int64_t)r.below(NA)}; }
+    else if (m < 38) { Op& o = add("MoveCtor"); o.a = {(int64_t)r.below(NA), (int64_t)r.below(NA), (int64_t)r.below(2)}; }
+    else if (m < 39) { Op& o = add("MoveAssign"); o.a = {(int64_t)r.below(NA), (int64_t)r.below(NA), (int64_t)r.below(2)}; }
     else { Op& o = add("Destroy"); o.a = {(int64_t)r.below(NA)}; }
   }
 }
